@@ -571,6 +571,36 @@ theorem select_touches_own_controllers_only (sp : Space) (hwf : SpaceWF sp) (st 
   obtain ⟨st', h1, _, _, h4⟩ := setConfiguration_frame hwf st hv
   exact ⟨st', h1, h4⟩
 
+/-- **Construction interleaved with selection**: catalogs and formulas may be created at any
+point of a history of selections, operator calls and direct controller moves (a catalog may be
+handed a controller that has already left its first alternative).  After ANY such history, from any
+world whose catalogs were accepted by the constructor, `f.configure_catalogs(A)` with a valid `A`
+succeeds, `f` shows `A`, and EVERY catalog made so far — before or after the controller was moved,
+inside `f` or in another formula — that was handed a declared controller governed by `f` shows
+the member `A` names for that controller. -/
+theorem late_catalog_follows (decl : List Controller) (ops : List WOp) (w₀ w₁ : World)
+    (h : runW decl w₀ ops = .ok w₁) (h₀ : CatsOK decl w₀.cats) (f : Nat) (sp : Space)
+    (hf : w₁.fs[f]? = some sp) (hwf : SpaceWF sp) (A : Config) (hv : ValidCfg sp A) :
+    ∃ w₂, runW decl w₀ (ops ++ [.op (.select f A)]) = .ok w₂ ∧ w₂.cats = w₁.cats ∧
+      getConfiguration sp w₂.st = .ok A ∧
+      ∀ x ∈ w₂.cats, ∀ ctrl, findCtrl decl x.2.1 = some ctrl → ctrl ∈ sp →
+        getSelection A ctrl.name = some (shownName w₂.st x.2.1 x.2.2) := by
+  obtain ⟨st₂, h1, h2, _, _⟩ := setConfiguration_frame hwf w₁.st hv
+  refine ⟨{ w₁ with st := st₂ }, ?_, rfl, ?_, ?_⟩
+  · rw [runW_append, h]
+    simp [runW, stepW, stepM, hf, h1]
+  · show getConfiguration sp st₂ = .ok A
+    rw [getConfiguration_ok hwf, h2]
+  · intro x hx ctrl hfc hmem
+    have hn := runW_inv ops w₀ w₁ h h₀ x hx ctrl hfc
+    have hname := (findCtrl_some decl _ _ hfc).2
+    have := getSelection_currentSels sp st₂ ctrl (names_nodup hwf.sorted) hmem
+    rw [h2] at this
+    show getSelection A ctrl.name = some (shownName st₂ x.2.1 x.2.2)
+    rw [this]
+    unfold shownName
+    rw [hn, hname]
+
 /-! non-vacuity of the round-3 statements -/
 
 def decl₀ : List Controller := [⟨nm "k", [nm "lin", nm "quad"]⟩]
@@ -613,6 +643,18 @@ example : (runM [sp₀, [⟨nm "k", [nm "lin", nm "quad"]⟩]] St.init
        .directIndex ⟨nm "c3", [nm "u", nm "v"]⟩ 1,
        .select 0 [(nm "c3", nm "u"), (nm "k", nm "lin")]]).map (fun st => currentSels sp₀ st)
     = .ok [(nm "c3", nm "u"), (nm "k", nm "lin")] := by decide
+
+/-- a catalog on controller k, a formula, k moved to `quad`; only then a second catalog on k and a second
+formula; selecting `quad` (the index k already holds) on the new formula: both catalogs show `quad` -/
+example : (runW decl₀ ⟨St.init, [], []⟩
+      [.newCatalog (nm "c1") (nm "k") [nm "lin", nm "quad"],
+       .newFormula (.bin .plus (.cat (nm "c1") (nm "k") (.cons (nm "lin") (.num 1) (.cons (nm "quad") (.num 2) .nil))) (.num 0)),
+       .op (.select 0 [(nm "k", nm "quad")]),
+       .newCatalog (nm "c2") (nm "k") [nm "lin", nm "quad"],
+       .newFormula (.bin .plus (.cat (nm "c2") (nm "k") (.cons (nm "lin") (.num 5) (.cons (nm "quad") (.num 6) .nil))) (.num 0)),
+       .op (.select 1 [(nm "k", nm "quad")])]).map
+      (fun w => w.cats.map fun x => shownName w.st x.2.1 x.2.2)
+    = .ok [nm "quad", nm "quad"] := by decide
 
 /-- renaming `b1` and `x` through the catalogs while (c3:u, k:lin) is selected -/
 example : ((e₀.mapSel St.init (renameMap [nm "b1", nm "x"] (some (nm "p_")) none)).select St.init).map Expr.render
